@@ -333,6 +333,31 @@ theorem filterSeq_int (t : Sigs α) (n : Int) (dims : List String) :
     filterSeq t (.int 1) dims = .ok t ∧ ∀ a : α, filterSeq t (.k (.list [a])) dims = .ok t :=
   ⟨rfl, rfl, fun _ => rfl⟩
 
+/-- **Dirac kernel** (`[0,1,0]`): a signal without NaN is returned unchanged. -/
+theorem dirac_identity (v : List (Option α)) (b : Bool) (hlen : b = false → 1 ≤ v.length)
+    (hv : ∀ i, i < v.length → ∃ x, v[i]? = some (some x)) :
+    filterWindow v [0, 1, 0] b = .ok v := by
+  rw [filterWindow_eq v [0, 1, 0] b (by simp)
+    (fun i hi => by
+      obtain ⟨x, hx⟩ := hv i hi
+      have := (dirac_window v i x hx).2
+      simp only [List.length_cons, List.length_nil] at this ⊢
+      rw [this]; exact one_ne_zero)
+    (fun h => by simpa using hlen h)]
+  congr 1
+  apply List.ext_getElem?
+  intro i
+  by_cases hi : i < v.length
+  · obtain ⟨x, hx⟩ := hv i hi
+    rw [meanSignal_get v _ b i hi, hx]
+    split
+    · rfl
+    · have h := dirac_window v i x hx
+      simp only [List.length_cons, List.length_nil] at h ⊢
+      unfold wmean
+      rw [h.1, h.2, div_one]
+  · rw [List.getElem?_eq_none (by simp [meanSignal]; omega), List.getElem?_eq_none (by omega)]
+
 /-! ## The domain is sharp, and it is inhabited -/
 
 /-- outside the domain: an odd window one of whose norms is zero makes the method fail with a
